@@ -58,16 +58,31 @@ def lemma_ping(ev):
 lemma_ping.note = "the keep-alive ping of both interfaces is the comment block b': ping\\n\\n' (a line starting with ':' is ignored by EventSource)"
 
 
+def _joined_shape(node):
+    """f-string -> list of parts: constant text or None for a formatted value (whatever its name / conversion)"""
+    if not isinstance(node, ast.JoinedStr):
+        return None
+    return [v.value if isinstance(v, ast.Constant) else None for v in node.values]
+
+
 def lemma_field_layout(ev):
-    """every field line is '<name>: <value>' and the block is terminated by an empty line (joined with LF)"""
+    """every field line is '<name>: <value>' and the block is terminated by an empty line (joined with LF).  Decided on
+    the shape of the AST, not on its text: local names, quoting and layout may change freely."""
     fdef = source.find_def(R, "build_bytes_from_sse")
-    src = ast.unparse(fdef)
-    ok = ("f'data: {_}'" in src or 'f"data: {_}"' in src) and ("f'{k}: {v}'" in src or 'f"{k}: {v}"' in src) and "(b'', b'')" in src \
-        and "b'\\n'.join" in src
-    return z3.BoolVal(ok)
+    shapes = [_joined_shape(n) for n in ast.walk(fdef) if isinstance(n, ast.JoinedStr)]
+    data_line = ["data: ", None] in shapes
+    field_line = [None, ": ", None] in shapes
+    only_these = all(sh in (["data: ", None], [None, ": ", None]) for sh in shapes)
+    closes = any(isinstance(n, ast.Tuple) and len(n.elts) == 2 and all(isinstance(e, ast.Constant) and e.value == b"" for e in n.elts)
+                 for n in ast.walk(fdef))
+    lf_join = any(isinstance(n, ast.Call) and isinstance(n.func, ast.Attribute) and n.func.attr == "join"
+                  and isinstance(n.func.value, ast.Constant) and n.func.value.value == b"\n" for n in ast.walk(fdef))
+    returns_join = any(isinstance(n, ast.Return) and isinstance(n.value, ast.Call) and isinstance(n.value.func, ast.Attribute)
+                       and n.value.func.attr == "join" for n in ast.walk(fdef))
+    return z3.BoolVal(data_line and field_line and only_these and closes and lf_join and returns_join)
 
 
-lemma_field_layout.note = ("syntactic: field lines are f'{k}: {v}' / f'data: {line}', joined with LF and closed by an empty line "
+lemma_field_layout.note = ("AST shape: the only f-strings are '<x>: <y>' and 'data: <x>', the result is b'\\n'.join(...) and ends with two empty items "
                            "(decoding of the block is checked by the bounded EventSource reference parser)")
 
 SSE = Contract(
